@@ -1318,6 +1318,13 @@ mod expression_parser {
                   )
                 })
                 .collect_vec();
+              if let Some(node) = tuple_elements.get(MAX_STRUCT_SIZE) {
+                parser.error_set.report_invalid_syntax_error(
+                  node.loc(),
+                  format!("Maximum allowed tuple size is {MAX_STRUCT_SIZE}"),
+                );
+              }
+              tuple_elements.truncate(MAX_STRUCT_SIZE);
               if tuple_elements.len() == 1 {
                 // `(a,)` is a parenthesized expression with a trailing comma,
                 // not a tuple of one element.
